@@ -135,3 +135,14 @@ PROPS["C03"] = Prop(
     nontrivial=lambda s, impl: s.count(";") >= 3,
 )
 PARAMS["C03"] = {"rule": "seeded random chains (quick: 300 chains of <= 14 ops; thorough: 20000 chains of <= 40 ops) of all 33 pool operations over drop-tracked elements, outputs of one operation feeding the next; full final state (arrays, live iterator ranges, caller-held elements, drop log) compared with the model, then everything is dropped and every created id must have been dropped exactly once. Plus all single sequence / regroup operations with drop-tracked and drop-counted zero-sized elements."}
+
+PROPS["C14"] = Prop(
+    "C14", ["GA.Props.C14"],
+    [Engine("hex", scen.hex_, sig=lambda l: l.split()[0]),
+     Engine("hex", scen.hex_, features=("faster-hex",), sig=lambda l: l.split()[0] + "/faster-hex")],
+    trusted=[KERNEL, TRANSLATOR, HARNESS,
+             "modelled, not verified: core::fmt (precision delivery, write_str), faster-hex's hex_encode contract (needs dst.len() >= 2*src.len(), writes exactly 2*src.len() digits at the front) — validated by building and running the engine with the feature on"],
+    assumptions=["byte values are < 256; output characters are compared as strings (long outputs by length, 24-char head and tail, and an FNV digest computed on both sides)"],
+    nontrivial=lambda s, impl: " n=0 " not in s and "prec=0 " not in s,
+)
+PARAMS["C14"] = {"rule": "N in 0..=17, 31..=33, 1023, 1024, 1025, 2047..=2049, 3000, 4096 (covering the three strategies and their thresholds +-1) x every precision 0..=2N+2 for N <= 33, boundary and seeded precisions above x both cases x 2-3 byte patterns (never all-zero), with the faster-hex feature off and on. Non-trivial = N > 0 and precision != 0."}
